@@ -18,7 +18,9 @@ func verifNatBytes(x *Nat) []byte {
 }
 
 func verifModel_Nat_Mul(x *Nat, y *Nat, m *Modulus) *Nat {
-	r := verifUF("fn.mul", 8*len(x.limbs), verifNatBytes(x), verifNatBytes(y))
+	r := verifUF("fn.mul.comm", 8*len(x.limbs), verifNatBytes(x), verifNatBytes(y))
+	// a product modulo m lies below m (the only fact about multiplication the model provides)
+	verifAssume(VerifBelow(r, m))
 	n := len(x.limbs)
 	for i := 0; i < n; i++ {
 		o := 8 * (n - 1 - i)
@@ -34,5 +36,117 @@ func verifModel_bitLen(n uint) int { return verifBitsLen(n) }
 func verifH_bigmod_bitlen() {
 	n := uint(verifU64("n"))
 	verifAssert(bitLen(n) == verifBitsLen(n), "bitLen(n) = bits.Len(n) for every word")
+	verifReach("end")
+}
+
+// VerifNatRaw: the Nat holding exactly the big-endian bytes b (len(b) = m.Size()), no range check and
+// no reduction -- for reference computations whose operands are known to lie below m.
+func VerifNatRaw(b []byte, m *Modulus) *Nat {
+	x := NewNat().resetFor(m)
+	if err := x.setBytes(b); err != nil {
+		panic("VerifNatRaw: length")
+	}
+	return x
+}
+
+// VerifBelow: b < m, as the library's own constant-time comparison (same term as the code's range check;
+// equivalence with the byte-wise lexicographic order: verifH_bigmod_cmp).
+func VerifBelow(b []byte, m *Modulus) bool { return VerifNatRaw(b, m).cmpGeq(m.nat) == 0 }
+
+// VerifIsZero: b = 0 as the library's own test (equivalence with the byte-wise test: verifH_bigmod_cmp).
+func VerifIsZero(b []byte, m *Modulus) bool { return VerifNatRaw(b, m).IsZero() == 1 }
+
+func verifSetNatBytes(x *Nat, r []byte) {
+	n := len(x.limbs)
+	for i := 0; i < n; i++ {
+		o := 8 * (n - 1 - i)
+		x.limbs[i] = uint(r[o])<<56 | uint(r[o+1])<<48 | uint(r[o+2])<<40 | uint(r[o+3])<<32 | uint(r[o+4])<<24 | uint(r[o+5])<<16 | uint(r[o+6])<<8 | uint(r[o+7])
+	}
+}
+
+// Abstract modular addition/subtraction (used by the data-flow harnesses of C06/C08/C10, where only WHICH
+// operation is applied to WHICH operands matters): uninterpreted functions with results below m.  That
+// the real limb code computes (x ± y) mod m is decided separately (verifH_bigmod_addsub).
+func verifModel_Nat_Add(x *Nat, y *Nat, m *Modulus) *Nat {
+	r := verifUF("fn.add.comm", 8*len(x.limbs), verifNatBytes(x), verifNatBytes(y))
+	verifAssume(VerifBelow(r, m))
+	verifSetNatBytes(x, r)
+	return x
+}
+
+func verifModel_Nat_Sub(x *Nat, y *Nat, m *Modulus) *Nat {
+	r := verifUF("fn.sub", 8*len(x.limbs), verifNatBytes(x), verifNatBytes(y))
+	verifAssume(VerifBelow(r, m))
+	verifSetNatBytes(x, r)
+	return x
+}
+
+// ---- lemmas about the real limb code, for a 256-bit modulus with the top bit set (SM2 n, SM2 p, SM9 n) ----
+
+func verifWideLess(a, b []byte) bool {
+	d := verifWideSub(append([]byte{0}, a...), append([]byte{0}, b...))
+	return d[0] != 0
+}
+
+func verifLemmaModulus() (*Modulus, []byte) {
+	var mb []byte
+	switch verifParam("mod") {
+	case 0: // SM2 group order
+		mb = []byte{0xFF, 0xFF, 0xFF, 0xFE, 0xFF, 0xFF, 0xFF, 0xFF, 0xFF, 0xFF, 0xFF, 0xFF, 0xFF, 0xFF, 0xFF, 0xFF, 0x72, 0x03, 0xDF, 0x6B, 0x21, 0xC6, 0x05, 0x2B, 0x53, 0xBB, 0xF4, 0x09, 0x39, 0xD5, 0x41, 0x23}
+	default: // SM9 group order
+		mb = []byte{0xB6, 0x40, 0x00, 0x00, 0x02, 0xA3, 0xA6, 0xF1, 0xD6, 0x03, 0xAB, 0x4F, 0xF5, 0x8E, 0xC7, 0x44, 0x49, 0xF2, 0x93, 0x4B, 0x18, 0xEA, 0x8B, 0xEE, 0xE5, 0x6E, 0xE1, 0x9C, 0xD6, 0x9E, 0xCF, 0x25}
+	}
+	m, err := NewModulus(mb)
+	if err != nil {
+		panic("modulus")
+	}
+	return m, mb
+}
+
+// cmpGeq / IsZero / SetBytes / SetOverflowingBytes against byte-level definitions, every 32-byte value
+func verifH_bigmod_cmp() {
+	m, mb := verifLemmaModulus()
+	x := verifBytes("x", 32)
+	below := verifWideLess(x, mb)
+	verifAssert(VerifBelow(x, m) == below, "cmpGeq(x, m) = 0 exactly if x < m")
+	zero := true
+	for _, b := range x {
+		zero = verifAll(zero, b == 0)
+	}
+	verifAssert(VerifIsZero(x, m) == zero, "IsZero exactly for the zero string")
+	keep := append([]byte(nil), x...)
+	n, err := NewNat().SetBytes(x, m)
+	verifAssert((err == nil) == below, "SetBytes accepts exactly the values below m")
+	if err == nil {
+		verifAssert(verifEqBytes(n.Bytes(m), keep), "and stores them verbatim")
+	}
+	o, oerr := NewNat().SetOverflowingBytes(x, m)
+	verifAssert(oerr == nil, "SetOverflowingBytes accepts every 32-byte value for a 256-bit modulus")
+	if oerr == nil {
+		red := verifIteBytes(below, keep, verifWideSub(keep, mb))
+		verifAssert(verifEqBytes(o.Bytes(m), red), "and subtracts the modulus once if needed")
+	}
+	verifReach("end")
+}
+
+// Add / Sub = (x ± y) mod m for all x, y below m
+func verifH_bigmod_addsub() {
+	m, mb := verifLemmaModulus()
+	x, y := verifBytes("x", 32), verifBytes("y", 32)
+	verifAssume(verifAll(verifWideLess(x, mb), verifWideLess(y, mb)))
+	x33, y33, m33 := append([]byte{0}, x...), append([]byte{0}, y...), append([]byte{0}, mb...)
+	if verifParam("op") == 0 {
+		s := verifWideAdd(x33, y33)
+		d := verifWideSub(s, m33)
+		want := verifIteBytes(d[0] != 0, s, d)[1:]
+		got := VerifNatRaw(x, m).Add(VerifNatRaw(y, m), m).Bytes(m)
+		verifAssert(verifEqBytes(got, want), "Nat.Add = (x + y) mod m")
+	} else {
+		d := verifWideSub(x33, y33)
+		e := verifWideAdd(d, m33)
+		want := verifIteBytes(d[0] != 0, e, d)[1:]
+		got := VerifNatRaw(x, m).Sub(VerifNatRaw(y, m), m).Bytes(m)
+		verifAssert(verifEqBytes(got, want), "Nat.Sub = (x - y) mod m")
+	}
 	verifReach("end")
 }
